@@ -145,7 +145,16 @@ class Serializer:
     def _decode(self, value: bytes) -> Value:
         value = self._pickler.loads(value)
         if self._check_repr:
-            repr(value)
+            # the check is there to notice an object whose class changed since it was pickled (its repr then fails with
+            # AttributeError, which `decode` answers with the default).  A value whose repr fails for any other reason -
+            # an int beyond sys.get_int_max_str_digits(), a __repr__ with a bug - has been unpickled all right: it IS the
+            # stored value and must not make every read of the key raise
+            try:
+                repr(value)
+            except AttributeError:
+                raise
+            except Exception:  # noqa: BLE001
+                pass
         return value
 
     async def _custom_decode(self, backend: Backend, key: Key, value: bytes, default: Value) -> Value:
